@@ -298,6 +298,22 @@ func execC05(sc c05Scenario) *vstat.Outcome {
 	r11 := get(uriC, specC, sc.AEs[3])
 	check("hit-after-others2", sc.AEs[3], r11, hdr)
 
+	// a HEAD request first, then GETs of the same URL: what the HEAD fetched (headers, no body)
+	// must not become what GET clients are served
+	uriH := fmt.Sprintf("/c05/%d/h", n)
+	rh := do(c05Cl, reqSpec{Method: "HEAD", Addr: addr, Host: "c05.test", URI: uriH, Header: http.Header{"X-Spec": []string{specC}, "Accept-Encoding": []string{"gzip"}}})
+	if rh.Err != "" || rh.Code != sc.Status {
+		out.Violate("C05", "status", "HEAD %s: err %q status %d, the upstream answers %d", uriH, rh.Err, rh.Code, sc.Status)
+	} else if len(rh.Raw) != 0 {
+		out.Violate("C05", "body", "HEAD %s: %d body bytes", uriH, len(rh.Raw))
+	}
+	check("get-after-head", sc.AEs[1], get(uriH, specC, sc.AEs[1]), hdr)
+	check("get-after-head2", sc.AEs[2], get(uriH, specC, sc.AEs[2]), hdr)
+	rh2 := do(c05Cl, reqSpec{Method: "HEAD", Addr: addr, Host: "c05.test", URI: uriH, Header: http.Header{"X-Spec": []string{specC}}})
+	if rh2.Err != "" || rh2.Code != sc.Status || len(rh2.Raw) != 0 {
+		out.Violate("C05", "status", "second HEAD %s: err %q status %d (%d body bytes), the upstream answers %d", uriH, rh2.Err, rh2.Code, len(rh2.Raw), sc.Status)
+	}
+
 	// conditional requests: pike answers 304 itself only where the documented rule allows it (GET/HEAD,
 	// a 2xx answer with a validator the request matches); everything else is delivered as is
 	hasValidator := false
